@@ -208,7 +208,10 @@ func (c *Ctx) checkTempWriter(w *ssa.Function) {
 		switch calleeFullName(call.Common()) {
 		case "(*bufio.Writer).Flush":
 			flushes = append(flushes, cv)
-		case "(*bufio.Writer).Write", "(*bufio.Writer).WriteString", "(*os.File).Write", "(*os.File).WriteString":
+		case "(*bufio.Writer).Write", "(*bufio.Writer).WriteString", "(*os.File).Write", "(*os.File).WriteString",
+			"(*bufio.Writer).WriteByte", "(*bufio.Writer).WriteRune", "io.WriteString", "fmt.Fprint", "fmt.Fprintf", "fmt.Fprintln",
+			"(*encoding/json.Encoder).Encode", "io.Copy":
+			// (an Encoder / Fprint over the handle writes through it; its error is the write's error)
 			writes = append(writes, cv)
 		}
 	}
@@ -341,24 +344,62 @@ func ruleWR2(c *Ctx) {
 			}
 			c.ok(fn, construct, pos, fmt.Sprintf("new content = existing(param %d) ++ appended(param %d)", paramIndex(p1), paramIndex(p2)))
 			// each call site of the wrapper: existing must be readEvents(samePath) unmodified
-			for j, ws := range c.callers[Outermost(caller)] {
-				wargs := ws.Call.Common().Args
-				wfn := c.Name(ws.Fn)
+			// the call sites of the wrapper; a site inside a forwarding method of a store object (l.appendAtomically(existing,
+			// appended) = appendEventsAtomically(l.path, existing, appended)) is judged at the method's own call sites
+			type wsite struct {
+				fn   *ssa.Function
+				call ssa.CallInstruction
+				args []vArg
+			}
+			var wsites []wsite
+			for _, ws := range c.callers[Outermost(caller)] {
+				if fi := c.fwdOf[ws.Fn]; fi != nil && fi.Target == caller && len(c.callers[ws.Fn]) > 0 {
+					for _, cs2 := range c.callers[ws.Fn] {
+						if _, va := forwardedCall(cs2.Call.Common()); va != nil {
+							wsites = append(wsites, wsite{cs2.Fn, cs2.Call, va})
+						}
+					}
+					continue
+				}
+				var va []vArg
+				for _, a := range ws.Call.Common().Args {
+					va = append(va, vArg{a, -1})
+				}
+				wsites = append(wsites, wsite{ws.Fn, ws.Call, va})
+			}
+			canonV := func(a vArg) string {
+				if a.Field < 0 {
+					return c.canon(a.V)
+				}
+				return c.canon(a.V) + "." + fieldName(a.V.Type(), a.Field)
+			}
+			for j, ws := range wsites {
+				wargs := ws.args
+				wfn := c.Name(ws.fn)
 				wcon := fmt.Sprintf("b:wrapper-call %s#%d", caller.Name(), j+1)
-				wpos := c.Pos(ws.Call.Pos())
+				wpos := c.Pos(ws.call.Pos())
 				idx := paramIndex(p1)
-				if idx >= len(wargs) {
+				if idx >= len(wargs) || wargs[idx].Field >= 0 {
 					c.bad(wfn, wcon, wpos, "wrapper call has too few arguments")
 					continue
 				}
-				ex := resolve(wargs[idx])
+				ex := resolve(wargs[idx].V)
 				call, ri := callOf(ex)
-				if call == nil || ri != 0 || calleeOf(&call.Call) != readEvents || readEvents == nil {
+				var readPath vArg
+				okRead := false
+				if call != nil && ri == 0 && readEvents != nil {
+					if calleeOf(&call.Call) == readEvents {
+						readPath, okRead = vArg{call.Call.Args[0], -1}, true
+					} else if tgt, va := forwardedCall(&call.Call); tgt == readEvents && len(va) > 0 {
+						readPath, okRead = va[0], true
+					}
+				}
+				if !okRead {
 					c.bad(wfn, wcon, wpos, "`existing` is not the result of reading the log in this function: "+c.canon(ex))
 					continue
 				}
-				if c.canon(call.Call.Args[0]) != c.canon(wargs[0]) {
-					c.bad(wfn, wcon, wpos, "`existing` was read from "+c.canon(call.Call.Args[0])+" but the rewrite targets "+c.canon(wargs[0]))
+				if canonV(readPath) != canonV(wargs[0]) {
+					c.bad(wfn, wcon, wpos, "`existing` was read from "+canonV(readPath)+" but the rewrite targets "+canonV(wargs[0]))
 					continue
 				}
 				if mod := sliceModified(ex); mod != "" {
@@ -999,9 +1040,9 @@ func ruleWR6(c *Ctx) {
 		for g := range c.F.TransitiveCallees(e) {
 			for _, call := range callsIn(g) {
 				cal := calleeOf(call.Common())
-				if cal == lg || cal == rd {
-					if g == lg && cal == rd {
-						continue // loadGraph -> readEvents is the one load
+				if cal == lg || cal == rd || c.loaderKind(cal) != "" {
+					if (g == lg || c.loaderKind(g) != "") && (cal == rd || c.loaderKind(cal) != "") {
+						continue // loadGraph -> (loadGraphFrom ->) readEvents is the one load
 					}
 					cnt++
 					if inCycle(call.Block()) {
